@@ -278,8 +278,13 @@ def run_interrupt_tags(P, rep, rule="R-PAIR.set"):
                 for st in b["s"]:
                     if st[0] == "a" and st[1][0] == ol[0] and st[2]["k"] == "agg" and st[2].get("id", "").endswith("::Interrupt"):
                         got = st[2]["variant"]
+        setb = [bi for bi, t in P.calls(fn) if t is sets[0]][0]
+        skipping = [rb for rb in return_blocks(fn) if rb in P.reach(fn, [0], stop={setb})]
         if got != variant:
             rep.viol(rule, ty, P.where(fn), "the %s tag requests interrupt variant %s" % (ty.lower(), got))
+        elif any(b["t"]["k"] == "switch" for b in fn.blocks) or skipping:
+            rep.viol(rule, ty + " conditional", P.where(fn),
+                     "the %s tag does not set its interrupt unconditionally (there is a branch / a return that skips InterruptRegister::set)" % ty.lower())
         else:
             rep.ok(rule, ty, P.where(fn), "sets Interrupt::%s" % ty)
 
